@@ -1138,6 +1138,106 @@ def replay_regressions(ctx, pid, kinds):
             raise core.Violation(bad[0][1], path, True)
 
 
+# =============================================================================================
+# metamorphic stage: re-casing the REFERENCES stored in a workspace (Proofs/ScopingRecase.v: ws_sim)
+# =============================================================================================
+import copy
+
+
+def recase_word(rng, w):
+    k = rng.randrange(3)
+    v = w.swapcase() if k == 0 else (w.upper() if k == 1 else w.lower())
+    return v if v != w else w.swapcase()
+
+
+def recase_refs(rng, ws, p=0.8):
+    """a copy of the workspace whose parent classes, `uses` lists and declared type names (members, parameters, locals)
+    are written in another letter case; every declaration stays as written"""
+    ws2 = copy.deepcopy(ws)
+    rc = lambda w: recase_word(rng, w) if rng.random() < p else w
+    rt = lambda t: None if t is None else (t[0], rc(t[1]))
+    for e in ws2:
+        if e.parent:
+            e.parent = rc(e.parent)
+        e.uses = [rc(u) for u in e.uses]
+        for d in e.members:
+            d.type = rt(d.type)
+        for me in e.methods:
+            for v in me.params + me.locals:
+                v.type = rt(v.type)
+    return ws2
+
+
+def alias_pair_workspace(recased):
+    """the pair of Proofs/ScopingRecaseWitness.v (w_alias / w_alias_recased) with bodies"""
+    c = (lambda x: x.swapcase()) if recased else (lambda x: x)
+    ws = [mk("c", "aBase", None, (), [("t", "tRef", ("r", c("aLeaf"))), ("f", "Link", ("n", c("tRef"))), ("f", "Items", ("l", c("aLeaf"))),
+                                      ("u", "Ga", ("n", c("aBase"))), ("p", "Run", None)], [("Ga", [], []), ("Run", [], [])]),
+          mk("c", "aLeaf", c("aBase"), (c("aLib"),), [("f", "Fb", ("n", c("int4"))), ("p", "Go", None)],
+             [("Go", [("p", ("n", c("tLib")))], [("x", ("n", c("tRef"))), ("l", ("r", c("aLeaf")))])]),
+          mk("c", "aLib", None, (), [("t", "tLib", ("n", c("aBase")))], [])]
+    bodies = {("aLeaf", "Go"): [("chain", I("x", "Link", "fb")), ("chain", I("p", "ga()", "LINK")), ("chain", I("l", "Items", "Zz")),
+                                ("assign", I("self", "Link", "Link"), I("tLib")), ("dangling", I("p", "ga()"))]}
+    return ws, bodies
+
+
+def recase_pairs(ctx, kinds):
+    """[(original line, re-cased line)]: same declarations, same bodies, same positions, same queries"""
+    pairs = []
+    a, b = [hand_case(*alias_pair_workspace(v), kinds) for v in (False, True)]
+    pairs.append((a, b))
+    rng = random.Random(ctx.seed * 7919 + 17)
+    n = 40 if ctx.quick else 500
+    while len(pairs) < n + 1:
+        seed = rng.randrange(1 << 30)
+        ws = Gen(random.Random(seed)).gen_workspace()
+        ws2 = recase_refs(random.Random(seed + 1), ws)
+        a = Renderer(random.Random(seed + 2), ws, kinds).run()
+        b = Renderer(random.Random(seed + 2), ws2, kinds).run()
+        pairs.append((a, b))
+    for a, b in pairs:
+        same = ([q[:4] for q in a.queries] == [q[:4] for q in b.queries] and a.table == b.table and a.opened == b.opened
+                and [(s, t.upper()) for s, t in a.files] == [(s, t.upper()) for s, t in b.files])
+        if not same:
+            raise RuntimeError("re-casing the references changed the rendering (generator defect)")
+    return [(a.line(), b.line()) for a, b in pairs]
+
+
+def recase_stage(ctx, pid, kinds):
+    """both variants through both engines: the implementation must answer the two variants identically (the property on
+    the real code), so must the model (Cxx_workspace_recase), and model and implementation must agree on both"""
+    pairs = recase_pairs(ctx, kinds)
+    lines = [l for p in pairs for l in p]
+    hb, mb = diff.Engines.harness(), diff.Engines.model()
+    impl = [canon(x) for x in core.run_lines(hb, "sem", lines)]
+    mod = [canon(x) for x in core.run_lines(mb, "sem", lines)]
+    differing = 0
+    for k, (la, lb) in enumerate(pairs):
+        ia, ib, ma, mb_ = impl[2 * k], impl[2 * k + 1], mod[2 * k], mod[2 * k + 1]
+        if la != lb:
+            differing += 1
+        what = None
+        if ia != ib:
+            what, found = "the implementation answers differently when only the letter case of stored references changes", True
+        elif ma != mb_:
+            what, found = "theorem %s_workspace_recase does not describe the extracted model any more" % pid, False
+        elif ia != ma or ib != mb_:
+            what, found = "correspondence sem: model and implementation disagree on a re-cased pair", False
+        if what:
+            qa = Case.parse(la).queries
+            first = next((i for i, (x, y) in enumerate(zip(ia.split(";"), ib.split(";"))) if x != y), None) if ia != ib else None
+            path = core.write_replay(ctx.pid, ctx.seed, {
+                "engine": "sem", "case": lb, "case_original": la, "case_readable": describe(lb), "original_readable": describe(la),
+                "observed": ib, "observed_original": ia, "model": mb_, "model_original": ma, "expected": what,
+                "first_differing_query": None if first is None else "%s %s.god %d:%d %s" % qa[first]})
+            raise core.Violation(what, path, found)
+    return {"recase_pairs": len(pairs), "recase_pairs_with_a_recased_reference": differing,
+            "recase_requests": sum(len(Case.parse(a).queries) for a, _ in pairs),
+            "recase_rule": "pairs (workspace, same workspace with parent classes / uses / declared type names of members, parameters "
+                           "and locals in another letter case, declarations and bodies untouched), rendered at identical "
+                           "positions; implementation(A) = implementation(B) = model(A) = model(B) on every request"}
+
+
 def gen_cases(ctx, kinds):
     rng = random.Random(ctx.seed)
     n = 240 if ctx.quick else 5000
@@ -1156,6 +1256,19 @@ def gen_cases(ctx, kinds):
 def replay(ctx, rep, pid):
     line = rep["case"]
     hb = diff.Engines.harness()
+    if rep.get("case_original"):
+        outs = [canon(x) for x in core.run_lines(hb, "sem", [rep["case_original"], line], shards=1)]
+        for tag, l in (("original", rep["case_original"]), ("re-cased", line)):
+            for f, t in describe(l)["files"].items():
+                print("--- %s (%s)" % (f, tag))
+                print(t)
+        print("implementation, original :", outs[0][:1500])
+        print("implementation, re-cased :", outs[1][:1500])
+        if outs[0] != outs[1]:
+            print("VIOLATION property=%s replay=%s" % (pid, rep.get("how_to_rerun", "").split()[-1]))
+            return 1
+        print("the two variants are answered identically")
+        return 0
     out = canon(core.run_lines(hb, "sem", [line], shards=1)[0])
     case = Case.parse(line)
     bad = check_case(case, out)
